@@ -1,7 +1,8 @@
 """C09 — EECC (gcmpy/covers/eecc.py) vs the Gallina model (Model/Eecc.v).
 
 The graph reaches the object through every public construction path (`_feed`); graphs beyond the reach of the
-brute-force model (mode 'big') are judged by the verified exact-cover checker alone (`c09_check_cover`).
+brute-force model (mode 'big') are judged by the verified checker entry `c09_check_full_fast` (all three clauses; the
+isolated-maximal-clique clause is decided there without enumerating maximal cliques).
 
 Every tie-break of the greedy loop is scripted BY CONTENT: `gcmpy.covers.eecc.choice` is replaced by a
 function that reads the clique list `C` from the caller's frame, sorts the offered candidate cliques
@@ -29,8 +30,9 @@ RULE = ("case = (edge list of a simple graph in arbitrary order/orientation, m0 
         "25-80 (a share up to 160) vertices, planted overlapping cliques K3-K8 plus many separate cliques (so that nearly "
         "the whole clique list is dropped by the score-zero pass and the survivors sit at large spread-out positions), "
         "m0 in 2..9 around the clique number, three tie-break schedules per graph, no model run (the brute force cannot "
-        "enumerate their maximal cliques): the cover is judged by the verified c09_check_cover (exact_cover_b + working "
-        "graph empty; the isolated-maximal-clique clause is NOT judged on this stream); compared per run: find_cliques() as a sorted list, "
+        "enumerate their maximal cliques): the cover is judged by the verified c09_check_full_fast - exact_cover_b, working "
+        "graph empty, and the isolated-maximal-clique clause decided by the polynomial isolated_ok_fast_b (one candidate "
+        "per edge), proved to give the answers of c09_check on every input; compared per run: find_cliques() as a sorted list, "
         "limited_maximal_cliques() as a sorted list (duplicates visible), the sorted candidate cliques offered to the "
         "tie-break in every round, the cover as a multiset, has_edges() and the vertex set afterwards, that the edge list "
         "handed in is untouched, the exception class for m0 < 2 / isolated vertices; when the tie-break is drawn with "
@@ -47,10 +49,13 @@ EXPLANATION = ("GENERAL theorem C09_exact_cover_general / C09_full_holds: all lo
                "random graphs to 12 vertices with planted overlapping cliques and m0 below / at / above the clique "
                "number, histories on shared objects, and the malformed stream (m0 < 2, empty graph, isolated vertices); "
                "every stream feeds the graph through all public construction paths; beyond the model's reach (25-160 "
-               "vertices) the implementation's covers are judged by the verified exact-cover checker alone "
-               "(c09_check_cover; C09_check_cover_entry_sound ties its answer to the Prop-level ExactCover of the simple "
-               "graph handed over, C09_norm_graph_spec says which graph that is) - 210 such runs in the quick tier, 2100 "
-               "in the thorough tier; that stream is sampled, not exhaustive, and does not judge IsolatedIntact")
+               "vertices) the implementation's covers are judged by the verified checker entry c09_check_full_fast on ALL THREE "
+               "clauses (C09_check_full_fast_agrees: it answers what c09_check answers on every tree; "
+               "C09_check_full_fast_entry_cover / _empty / _isolated tie its answers to the Prop-level ExactCover / empty "
+               "working graph / IsolatedIntact of the simple graph handed over, C09_norm_graph_spec says which graph that "
+               "is; the third clause is decided by isolated_ok_fast_b without enumerating maximal cliques, "
+               "C09_check_isolated_fast_sound) - 210 such runs in the quick tier, 2100 in the thorough tier; that stream "
+               "is sampled, not exhaustive")
 ASSUMPTIONS = [
     "CPython float arithmetic is IEEE-754 binary64 with round-to-nearest-even (the model's fl_round); validated on "
     "every run against the float sums the interpreter computes (c09_fl)",
@@ -75,10 +80,18 @@ LEVEL_TEXT = (
     "executable checker; (general, wire level) C09_norm_graph_spec - the graph the checker entries judge is exactly the "
     "simple graph of the edge list handed over; C09_check_cover_entry_sound / _empty / _agrees - the checker-only entry "
     "c09_check_cover answers 1 exactly when ExactCover holds for that graph / the working graph was reported empty, and "
-    "its answers are the first two of c09_check.  The model (float-faithful scores, content-keyed tie-breaks) is tied to "
+    "its answers are the first two of c09_check; (general) C09_isolated_is_local - a maximal clique shares no edge with a "
+    "different maximal clique exactly when no outside vertex has two neighbours in it; C09_check_isolated_fast_sound / "
+    "_fast_eq - the polynomial isolated_ok_fast_b (one candidate per edge: the edge plus the common neighbours of its "
+    "ends, no maximal-clique enumeration) is equivalent to IsolatedIntact, hence equal to isolated_ok_b, on every "
+    "loop-free edge list; (bounded, vm_compute, independent of that proof) C09_check_isolated_fast_agrees_upto_5 - the two "
+    "tests agree on all 1024 edge subsets of K5 x m0 in 1..6 x three probe covers; (general, wire level) C09_check_full_fast_agrees - the entry c09_check_full_fast answers "
+    "exactly what c09_check answers on every tree, and C09_check_full_fast_entry_cover / _empty / _isolated tie its "
+    "three answers to ExactCover / empty working graph / IsolatedIntact of the simple graph handed over.  The model (float-faithful scores, content-keyed tie-breaks) is tied to "
     "gcmpy/covers/eecc.py + network.py by the correspondence described in `rule`; the verified checker c09_check "
-    "judges every cover the implementation returns on graphs within the model's reach (<= 12 vertices), c09_check_cover "
-    "(the exact-cover clauses without IsolatedIntact) the covers of the sampled 25-160 vertex graphs.")
+    "judges every cover the implementation returns on graphs within the model's reach (<= 12 vertices), "
+    "c09_check_full_fast (the same three clauses, proved to give the same answers) the covers of the sampled 25-160 "
+    "vertex graphs.")
 LEVEL_NOTE = ("Trusted: Coq kernel (+ vm_compute for the bounded theorem only); extraction + OCaml driver + harness for "
               "the correspondence; networkx find_cliques modelled not verified (compared on every case); binary64 "
               "rounding model validated against the interpreter on every run.")
@@ -692,7 +705,9 @@ def check_calls(case, impl_obs):
         return [("c09_check", [es, m0, ob["cover"], ob["has_edges"]])
                 for st, (es, iso, m0), ob in _hist_obs_steps(case, impl_obs)
                 if st[0] == "eecc" and not iso and m0 >= 2 and not _is_exc(ob)]
-    entry = "c09_check_cover" if mode == "big" else "c09_check"
+    # checker-only stream: all three clauses, the third decided without enumerating maximal cliques
+    # (C09_check_full_fast_agrees: the same answers as c09_check on every tree)
+    entry = "c09_check_full_fast" if mode == "big" else "c09_check"
     return [(entry, [case["edges"], case["m0"], ob["cover"], ob["has_edges"]]) for _, ob in _leaves(case, impl_obs)]
 
 
@@ -700,10 +715,11 @@ CHECK_NAMES = ["exact_cover_b (members are cliques of the input with 2..m0 verti
                "working graph empty afterwards", "isolated maximal cliques of size <= m0 returned intact"]
 
 
-def _verdict_one(r, where, cover, nclauses=3):
+def _verdict_one(r, where, cover, entry="c09_check"):
+    nclauses = 3
     if r != [1] * nclauses:
         bad = [n for n, b in zip(CHECK_NAMES, r if isinstance(r, list) and len(r) == nclauses else [0] * nclauses) if b != 1]
-        return (f"{'c09_check' if nclauses == 3 else 'c09_check_cover'} rejected the cover returned {where}: "
+        return (f"{entry} rejected the cover returned {where}: "
                 f"violated: {'; '.join(bad)}; cover {cover}")
     return None
 
@@ -734,7 +750,7 @@ def check_verdict(case, impl_obs, raws):
     if case["m0"] < 2:
         return None
     for (rk, ob), r in zip(_leaves(case, impl_obs), raws):
-        d = _verdict_one(r, f"under ranks {rk}", ob["cover"], 2 if mode == "big" else 3)
+        d = _verdict_one(r, f"under ranks {rk}", ob["cover"], "c09_check_full_fast" if mode == "big" else "c09_check")
         if d:
             return d
     return None
@@ -1143,7 +1159,7 @@ def _generate(rng, tier):
         m0 = rng.choice([2, 3, 4, n - 2, n - 1, n, n + 1, 9, 16])
         yield _case(es, m0, [rng.randint(0, 40) for _ in range(rng.randint(0, 12))], rng=rng if rng.random() < 0.5 else None)
     # 3c. CHECKER-ONLY stream: sparse graphs with 25-80 vertices (planted overlapping and separate cliques), m0 in
-    #     2..6 (sometimes up to 9), several tie-break schedules per graph; judged by c09_check_cover without the model
+    #     2..6 (sometimes up to 9), several tie-break schedules per graph; judged by c09_check_full_fast (all three clauses) without the model
     for _ in range(70 if tier == "quick" else 700):
         es = _big_graph(rng)
         if not es:
